@@ -50,6 +50,27 @@ Theorem C08_item_widths_documented : forall ft : ftype, ft_fixed ft = true -> cl
 Proof. exact class_width_ok. Qed.
 Print Assumptions C08_item_widths_documented.
 
+Theorem C08_constant_copies_agree :
+  c_mini_CURRENT_PROTOCOL_VERSION = c_CURRENT_PROTOCOL_VERSION /\
+  c_mini_OLDEST_SUPPORTED_PROTOCOL_VERSION = c_OLDEST_SUPPORTED_PROTOCOL_VERSION /\
+  c_micro_CURRENT_PROTOCOL_VERSION = c_CURRENT_PROTOCOL_VERSION /\
+  c_micro_OLDEST_SUPPORTED_PROTOCOL_VERSION = c_OLDEST_SUPPORTED_PROTOCOL_VERSION /\
+  c_py_CURRENT_PROTOCOL_VERSION = c_CURRENT_PROTOCOL_VERSION /\
+  c_minigw_ENCODING_DEFAULT = c_MUSCLE_MESSAGE_ENCODING_DEFAULT /\
+  c_microgw_ENCODING_DEFAULT = c_MUSCLE_MESSAGE_ENCODING_DEFAULT /\
+  c_py_ENCODING_DEFAULT = c_MUSCLE_MESSAGE_ENCODING_DEFAULT.
+Proof. exact protocol_constant_copies_agree. Qed.
+Print Assumptions C08_constant_copies_agree.
+
+Theorem C08_python_type_codes_agree :
+  c_py_B_BOOL_TYPE = c_B_BOOL_TYPE /\ c_py_B_DOUBLE_TYPE = c_B_DOUBLE_TYPE /\ c_py_B_FLOAT_TYPE = c_B_FLOAT_TYPE /\
+  c_py_B_INT64_TYPE = c_B_INT64_TYPE /\ c_py_B_INT32_TYPE = c_B_INT32_TYPE /\ c_py_B_INT16_TYPE = c_B_INT16_TYPE /\
+  c_py_B_INT8_TYPE = c_B_INT8_TYPE /\ c_py_B_MESSAGE_TYPE = c_B_MESSAGE_TYPE /\ c_py_B_POINTER_TYPE = c_B_POINTER_TYPE /\
+  c_py_B_POINT_TYPE = c_B_POINT_TYPE /\ c_py_B_RECT_TYPE = c_B_RECT_TYPE /\ c_py_B_STRING_TYPE = c_B_STRING_TYPE /\
+  c_py_B_RAW_TYPE = c_B_RAW_TYPE /\ c_py_B_ANY_TYPE = c_B_ANY_TYPE.
+Proof. exact python_type_codes_agree. Qed.
+Print Assumptions C08_python_type_codes_agree.
+
 (* 6. the 8-byte stream frame *)
 Theorem C08_unframe_frame : forall (enc : N) (body rest : bytes),
   len body < two32 -> enc < two32 -> unframe (frame enc body ++ rest) = Some (enc, body, rest).
